@@ -70,14 +70,16 @@ Proof.
 Qed.
 
 (** binary32 is a subset of binary64, so `as f64` is exact on every f32 (and trivially on every f64). *)
+Lemma pow24_lt_pow53 : (2 ^ 24 < 2 ^ 53)%N.
+Proof. vm_compute. reflexivity. Qed.
 Lemma fits_f64 p f : is_float p = true -> fits p f = true -> fits F64 f = true.
 Proof.
   intros Hp H. destruct f as [| |neg m e]; try reflexivity.
   destruct p; try discriminate Hp; [|exact H].
-  simpl in *. apply andb_true_iff in H as [H H3]. apply andb_true_iff in H as [H1 H2].
+  cbn [fits] in *. apply andb_true_iff in H as [H H3]. apply andb_true_iff in H as [H1 H2].
   apply N.ltb_lt in H1. apply Z.leb_le in H2, H3.
   apply andb_true_iff; split; [apply andb_true_iff; split|].
-  - apply N.ltb_lt. assert (2 ^ 24 < 2 ^ 53)%N by (vm_compute; reflexivity). lia.
+  - apply N.ltb_lt. eapply N.lt_trans; [exact H1|exact pow24_lt_pow53].
   - apply Z.leb_le. lia.
   - apply Z.leb_le. lia.
 Qed.
@@ -544,6 +546,29 @@ Lemma lazy : forall inv c, wf_inv inv = true ->
 Proof.
   intros inv c W. rewrite (run_spec inv c W). eexists. split; [reflexivity|].
   unfold spec_outcome. split; intros ->; simpl; split; auto. discriminate.
+Qed.
+
+(** "evaluated exactly once": when the counters written in the invocation are pairwise distinct, each of them is hit
+    once if the callsite is enabled, and no counter at all is hit if it is disabled. *)
+Lemma exactly_once : forall inv c, wf_inv inv = true -> NoDup (spec_ticks (i_fields inv)) ->
+  exists o, run inv c = Some o /\
+    forall i, count_occ N.eq_dec (o_ticks o) i =
+      if guard c (i_level inv) then (if in_dec N.eq_dec i (spec_ticks (i_fields inv)) then 1 else 0)%nat else 0%nat.
+Proof.
+  intros inv c W ND. rewrite (run_spec inv c W). eexists. split; [reflexivity|]. intros i.
+  unfold spec_outcome. cbn [o_ticks]. destruct (guard c (i_level inv)); [|reflexivity].
+  destruct (in_dec N.eq_dec i (spec_ticks (i_fields inv))) as [H|H].
+  - apply (count_occ_In N.eq_dec) in H. pose proof (proj1 (NoDup_count_occ N.eq_dec _) ND i). lia.
+  - apply (count_occ_not_In N.eq_dec) in H. exact H.
+Qed.
+
+(** `enabled!` (and event_enabled! / span_enabled!): only the field NAMES are used (there is no value to evaluate);
+    the answer is the guard and then the collector's own `enabled`. *)
+Lemma enabled_macro : forall f lvl c,
+  run_enabled f lvl c = Some (spec_names f, guard c lvl && c_enabled c).
+Proof.
+  intros f lvl c. unfold run_enabled, fieldset_expand. rewrite fieldset_go_spec. unfold spec_names.
+  destruct (f_fmt f); reflexivity.
 Qed.
 
 Lemma disabled_stages : forall c lvl,
